@@ -317,8 +317,8 @@ _IP_ASSUME = ["the functions are exercised one at a time on a record; their comp
 PROPS["C02"] = {
     "lean": ["C02"],
     "required": ["C02.c02_binding_never_moves", "C02.c02_new_binding_sound", "C02.c02_one_address_per_family", "C02.c02_wellformed_preserved", "C02.c02_entries_kept",
-                 "C02.c02_merge_keeps_known", "C02.c02_merge_ips", "C02.c02_merge_no_new_binding"],
-    "rule": _IP_RULE + " Every 8th C02 case is a cloud-drift case: the addresses a full synchronisation finds on one interface (80% of the recorded ones, a quarter of them reported as not available, plus 0-2 unknown ones) through the real mergeIPMap (op ip.merge), compared with Model/Ipam.lean mergeEntries; monitors: a bound valid address the cloud still reports is changed or dropped.",
+                 "C02.c02_rdma_only_for_rdma_pods", "C02.c02_merge_keeps_known", "C02.c02_merge_ips", "C02.c02_merge_no_new_binding"],
+    "rule": _IP_RULE + " Every 8th C02 case lists 1-5 pods of the node (host-network / pod-ENI / finished pods, RDMA limits on an init container or a later container) through the real getPods over a fake client (op ip.pods; monitor: a pod none of whose containers asks for RDMA is classified as needing an RDMA interface). Every 8th C02 case is a cloud-drift case: the addresses a full synchronisation finds on one interface (80% of the recorded ones, a quarter of them reported as not available, plus 0-2 unknown ones) through the real mergeIPMap (op ip.merge), compared with Model/Ipam.lean mergeEntries; monitors: a bound valid address the cloud still reports is changed or dropped.",
     "technique": "Lean 4: the assignment step as a relation between the record before and after (quantified over Go's map orders), theorems about everything the relation admits; every outcome of the real assignIPFromLocalPool is checked to satisfy the relation",
     "level_text": "Theorems about every outcome the relation admits: a binding never moves between pods; a new binding goes to a pod of the node that needs that family and has none, to exactly the address it reports (re-adoption) or a valid unbound address on an interface in use, RDMA interfaces to RDMA pods only, IPv6 on the interface of the pod's IPv4 address; at most one address per pod and family; addresses and their status untouched; the full synchronisation's merge leaves every address known to both sides exactly as recorded (bound addresses stay bound and valid), keeps exactly the addresses the cloud reports and binds nothing. That the real function only produces admitted outcomes is validated, not proved; beyond the merge of one interface, cloud drift (interfaces appearing / vanishing) and controller restarts enter only as arbitrary initial records and through the closed-loop runs: partial.",
     "level_note": "Trusted: Lean kernel; Model/Ipam.lean relates to the code by the correspondence run only. The daemon's read-back (crdv2.go multiIP) is not modelled.",
